@@ -30,24 +30,24 @@ TECH = {
 
 LEVEL_TEXT = {
     'C01': 'Exploration: every sequence operation (len/bool/iter/index/slice/+/*) of the four classes is compared with the same operation on the Python str of the bits over boundary-biased contents (to 17 kbit), 28 construction routes, all operand kinds and huge indices; plus a complete enumeration of all contents of length <= 5 (quick) / 7 (thorough) x all index and slice triples. Holds on everything explored.',
-    'C02': 'Exploration: (dtype, length, value, creation route, class) and (dtype, pattern, reading route) products against standard-library encoders; 13 creation and 11 reading routes must agree bit for bit, and building again after a previously built object was modified must still be canonical.',
+    'C02': 'Exploration: (dtype, length, value, creation route, class) and (dtype, pattern, reading route) products against standard-library encoders; 13 creation and 11 reading routes must agree bit for bit, and building again after a previously built object was modified must still be canonical; plus a complete grid of every integer dtype x every width to 130 bits x the values at and next to both limits.',
     'C03': 'Exploration: every mutator (single calls and sequences of up to 80 calls on one object) against a str-of-bits model that returns the set of acceptable outcomes; whole-content comparison after every step implies the frame condition.',
-    'C04': 'Exploration over derivation/mutation histories: a shadow value per live object (incl. external sources and bitarrays from tobitarray) must survive every mutation of any related object; immutables are poked with every mutator name and in-place operator.',
-    'C05': 'Exploration over a generated format grammar (AST): pack bits/length, unpack/readlist inverse, token-string equivalence and compositional (metamorphic) relations against independent per-token encoders; arity and size errors.',
+    'C04': 'Exploration over derivation/mutation histories: a shadow value per live object (incl. external sources and bitarrays from tobitarray) must survive every mutation of any related object; immutables are poked with every mutator name and in-place operator; 230 (dtype, length, value) recipes built repeatedly through 8 routes with edits in between; 14 kinds of external buffers; empty-string objects.',
+    'C05': 'Exploration over a generated format grammar (AST): pack bits/length, unpack/readlist inverse, token-string equivalence and compositional (metamorphic) relations against independent per-token encoders; arity and size errors; formats also given as lists of strings split at any top-level position.',
     'C06': 'Exploration over stream histories against a (bits,pos) reference machine: value, consumed bits, ReadError + unchanged pos, documented moves, derived streams at 0, and 0 <= pos <= len after every step.',
     'C07': 'Exploration: every search/split/count/replace call is compared with a scan on the Python str of the bits, over boundary-biased data (incl. > 8192-bit data), windows, counts and both sources of the bytealigned setting.',
     'C08': 'Exploration, differential: an object built through any of 38 construction routes (memory, files by name/handle with offset/length grid, caches, both bitarray endiannesses) must behave exactly like its twin cls(bin=content) under 65 operations and every mutator, in msb0 and lsb0.',
-    'C09': 'Exploration over call histories: each call in a warm interpreter is compared with the same call on cold caches (sidecar process, discovery cross-validated against fresh interpreters) under the same option values, incl. > 256-key eviction histories, option changes and mutation of earlier results.',
-    'C10': 'Complete enumeration of an integer window and of all decoder inputs up to a length bound (quick 11 bits / thorough 16 bits) plus generated values to 2^200 and mixed code sequences, against encoders/decoders written from the standards\' tables.',
-    'C11': 'Complete enumeration: every code of every format and all 65536 half-precision inputs x 7 formats x 2 overflow modes against an exact rational model; generated float64 inputs around rounding midpoints and overflow thresholds; scaled dtypes.',
+    'C09': 'Exploration over call histories: each call in a warm interpreter is compared with the same call on cold caches (sidecar process, discovery cross-validated against fresh interpreters) under the same option values (the cold answer comes from a child forked per call from a process that evaluated nothing), incl. > 256-key eviction histories on every cache-keyed path, failing calls, Dtype objects with different scales, option changes and mutation of earlier results.',
+    'C10': 'Complete enumeration of an integer window and of all decoder inputs up to a length bound (quick 11 bits / thorough 16 bits) plus generated values to 2^200 mixed code sequences (token strings, Dtype objects with and without scale), Dtype.parse, and encoders re-run in histories with in-place edits, against encoders/decoders written from the standards\' tables.',
+    'C11': 'Complete enumeration: every code of every format and all 65536 half-precision inputs x 7 formats x 2 overflow modes against an exact rational model; complete mxint / e8m0 boundary grids (every multiple of 1/256 and its float neighbours; every power of two and its neighbours); generated float64 inputs around rounding midpoints and overflow thresholds; scaled dtypes and scale=\'auto\'; encoders re-run in histories.',
     'C12': 'Exploration with a metamorphic mirror oracle computed on the independent str models (lsb0 result == reverse(msb0 model on reversed operands)), mode-independent observables, and option toggle histories.',
     'C13': 'Exploration: == / != / hash against equality of (len, bits) over classes, 26 routes (shared source files, in-place flips), lengths around the 2000-bit hash threshold, promotable and non-promotable operands.',
     'C14': 'Exploration over Array histories against a (list of item encodings, trailing bits, dtype) model with independent codecs; element-wise operators against the Python operator mapped over the items with the documented promotion.',
-    'C15': 'Exploration against a total accept/reject classifier at every range limit (widths 1..130), illegal lengths, invalid digits and source windows, through 17 routes; rejected assignments must leave the target unchanged.',
+    'C15': 'Complete grid (every integer dtype x width 1..130 x eight values around both limits; all 17 routes in thorough) plus exploration against a total accept/reject classifier: illegal lengths, invalid digits, source windows, preludes that use the same value with related dtypes first; rejected assignments must leave the target unchanged.',
     'C16': 'Exploration + complete small world: bitwise operators and shifts against Python int arithmetic, algebraic laws, error cases, operand immutability, shift counts up to 2^100.',
     'C17': 'Exploration + enumerated chunk-boundary sizes (hook) + the real 100 MiB chunk boundary: bytes written/returned vs int.to_bytes, read-back windows vs the selected source bits.',
-    'C18': 'Exploration, differential against struct and array from the standard library; endian relations by byte reversal; byteswap involution.',
-    'C19': 'Exploration: printed text is parsed back (Bits(str), eval(repr), digits of pp lines) and checked against layout predicates, in both bit numbering modes and colour settings.',
+    'C18': 'Exploration, differential against struct and array from the standard library; endian relations by byte reversal; struct records swapped with their own format (string / counts / size list, behind a header, once or repeated); byteswap involution.',
+    'C19': 'Every length 0..1100 (2100 in thorough) x 4 classes, plus exploration over 14 construction routes: printed text is parsed back (Bits(str), eval(repr), digits of pp lines) and checked against layout predicates, in both bit numbering modes and colour settings.',
     'C20': 'Exploration (API fuzzing with typed adversarial arguments in histories): exception-class oracle plus validity of every involved object and of the module options; two known findings (segfaults inside the third-party bitarray extension for del and int-assignment with slice steps beyond 2**63-2) excluded by construction and counted; a worker killed by a signal is turned into a minimised violation by re-running its traced case in a child process.',
 }
 
